@@ -2613,7 +2613,13 @@ class Face3D(Base2DIn3D):
         poly_groups = [[polys[0]]]
         for sub_poly in polys[1:]:
             for i, pg in enumerate(poly_groups):
-                if pg[0].is_polygon_inside(sub_poly):  # it's a hole
+                if tolerance is None:
+                    is_hole = pg[0].is_polygon_inside(sub_poly)
+                else:  # a hole may touch the boundary; a loop inside a hole is an island
+                    is_hole = pg[0].polygon_relationship(sub_poly, tolerance) == 1 and \
+                        not any(h.polygon_relationship(sub_poly, tolerance) == 1
+                                for h in pg[1:])
+                if is_hole:
                     poly_groups[i].append(sub_poly)
                     break
             else:  # it's a separate Face3D
